@@ -178,7 +178,7 @@ func RandomBehaviour(rng *mrand.Rand, cfg Config, n int, forge map[int][]string,
 		case r < 85:
 			a := Action{A: "inject", S: pick(), T: reqTypes[rng.Intn(len(reqTypes))], Tok: toks[rng.Intn(len(toks))], B: bodies[rng.Intn(len(bodies))]}
 			if a.B == "skip" {
-				a.T = 70
+				a.T = []int{66, 68, 70, 70}[rng.Intn(4)]
 			}
 			b.Actions = append(b.Actions, a)
 		case r < 88:
